@@ -13,7 +13,7 @@ import subprocess
 import sys
 
 prop, k = sys.argv[1], sys.argv[2]
-src = "/tmp/seed-out/%s/%s" % (prop, k)
+src = (sys.argv[3] if len(sys.argv) > 3 else "/tmp/seed-out") + "/%s/%s" % (prop, k)
 wt = "/tmp/sv-%s-%s" % (prop, k)
 PY = "/venv/bin/python"
 
